@@ -207,7 +207,12 @@ def _r09g(rep):
         rep.unknown(f"R09g: _shift2boolean is not in the tabulated form ({ex_})")
     # (4) length2mesh: the same pair discipline as _has_mesh_symmetry
     lm = core.find_def(GP, "length2mesh")
-    me = [st.value for st in ast.walk(lm) if isinstance(st, ast.Assign) and core.src(st.targets[0]) == "mesh_equiv" and isinstance(st.value, ast.List)]
+    # by role: the list of three pairwise mesh-number comparisons, whatever it is called
+    me_st = [st for st in ast.walk(lm) if isinstance(st, ast.Assign) and isinstance(st.value, ast.List) and len(st.value.elts) == 3 and all(isinstance(x, ast.Compare) for x in st.value.elts)]
+    me = [st.value for st in me_st]
+    me_name = core.src(me_st[0].targets[0]) if me_st else "mesh_equiv"
+    eq_st = [st for st in ast.walk(lm) if isinstance(st, ast.Assign) and isinstance(st.value, ast.Call) and core.src(st.value.func) == "get_lattice_vector_equivalence"]
+    eq_name = core.src(eq_st[0].targets[0]) if eq_st else "reclat_equiv"
     loops = [lp for lp in ast.walk(lm) if isinstance(lp, ast.For) and isinstance(lp.iter, ast.Call) and core.src(lp.iter.func) == "enumerate"]
     ok4 = False
     if len(me) == 1 and len(me[0].elts) == 3 and len(loops) == 1:
@@ -219,7 +224,7 @@ def _r09g(rep):
         pairs_l = [frozenset(int(core.src(x)) for x in el.elts) for el in it.elts] if isinstance(it, (ast.Tuple, ast.List)) else []
         iv = core.src(loops[0].target.elts[0]) if isinstance(loops[0].target, ast.Tuple) else "?"
         cond = [n for n in loops[0].body if isinstance(n, ast.If)]
-        ok_idx = len(cond) == 1 and core.src(cond[0].test).replace(" ", "").replace("(", "").replace(")", "") == f"reclat_equiv[{iv}]andnotmesh_equiv[{iv}]"
+        ok_idx = len(cond) == 1 and core.src(cond[0].test).replace(" ", "").replace("(", "").replace(")", "") == f"{eq_name}[{iv}]andnot{me_name}[{iv}]"
         ok4 = pairs_c == PAIRS and pairs_l == PAIRS and ok_idx
     rep.instance("R09g", GP, "length2mesh", "mesh numbers of exactly the lattice-equivalent pairs (b~c, c~a, a~b) are aligned", ok4, "length2mesh compares or aligns the mesh numbers of the wrong pair of axes: the suggested mesh breaks the symmetry the reduction relies on", line=lm.lineno)
     t = [core.src(c.args[0]) for c in ast.walk(lm) if isinstance(c, ast.Call) and core.src(c.func) == "get_lattice_vector_equivalence" and c.args]
@@ -228,8 +233,14 @@ def _r09g(rep):
         if isinstance(c, ast.Call) and core.src(c.func) == "get_lattice_vector_equivalence" and c.args:
             o = _orientation(c.args[0], "rotations") or _orientation(c.args[0], "np.array(rotations)")
     rep.instance("R09g", GP, "length2mesh", f"lattice equivalence from {t}", o in ("transposed", None) and bool(t), "length2mesh tests the equivalence of the reciprocal axes with untransposed rotations", line=lm.lineno)
-    ln = [st for st in ast.walk(lm) if isinstance(st, ast.Assign) and core.src(st.targets[0]) == "mesh_numbers"]
-    ok_n = bool(ln) and symalg.same(symalg.open_expr(core.src(ln[0].value)), symalg.open_expr("np.rint(rec_lat_lengths * length).astype(int)"))[0]
+    ln = [st for st in ast.walk(lm) if isinstance(st, ast.Assign) and isinstance(st.targets[0], ast.Name) and "np.rint" in core.src(st.value)]
+    trl = symalg.OpenPyTranslator(where="length2mesh")
+    envl = trl.summary(lm)
+    ok_n = False
+    if ln:
+        got_n = envl.get(core.src(ln[0].targets[0]))
+        want_n = symalg.open_expr("np.rint(get_cell_parameters(np.linalg.inv(lattice).T) * length).astype(int)")
+        ok_n = got_n is not None and (symalg.same(got_n, want_n)[0] or symalg.same(trl.expr(ln[0].value, envl), want_n)[0])
     rep.instance("R09g", GP, "length2mesh", core.norm(core.src(ln[0]), 70) if ln else "<vanished>", ok_n, "mesh numbers are not rint(|a*| * length)", line=lm.lineno, nontrivial=False)
 
 
